@@ -169,9 +169,17 @@ fn c14() -> Property {
                 cases_per_seed: 1,
                 note: "real listener against a scripted peer that closes the connection or ends the session (with or without an error) while the listener application waits in SessionAcceptor::accept, LinkAcceptor::accept or recv: the waiting call fails, carries the peer's error, and the connection handle reports the peer's close",
             },
+            Variant {
+                name: "stop-during-resume",
+                weight: 1,
+                make: || Box::pin(scen::c14::run_stop_during_resume()),
+                max_steps: 3_000_000,
+                cases_per_seed: 1,
+                note: "real client sender with 1-3 unsettled deliveries outstanding, detached and being resumed: the scripted peer ends the session or closes the connection instead of answering the resuming attach: resume() fails with the reason, and the outcomes awaited in other tasks resolve with an error while the application keeps the detached sender",
+            },
         ],
-        quick_runs: 5 * scen::c14::CASES,
-        thorough_runs: 41 * scen::c14::CASES,
+        quick_runs: 6 * scen::c14::CASES,
+        thorough_runs: 42 * scen::c14::CASES,
         rule: "(a) per seed (= network behaviour and schedule) a fixed reference conversation (open, two sessions, an unsettled sender with three batchable sends of which one is multi-frame plus a plain send, a receiver with two deliveries, detach, close, end, close) is run once per (direction, byte offset 0..=2200 client->listener and 0..=1200 listener->client, cut kind in {eof, reset, stall-then-eof}), with the listener's receiver credit (default or 1) and session incoming window (default or 2) drawn from the seed; offsets beyond the conversation are counted as skipped (trivial); (b) per seed one scripted-peer run with the stop kind, error presence and position drawn from the seed; distinct = distinct event-log hash",
         assumptions: vec![
             "a call returning Ok after the cut is accepted when it raced the failure (its request was queued before the engine noticed); calls made after quiescence must fail",
